@@ -259,6 +259,16 @@ def _z3_decl_name_str(ctx, decl):
     return z3.Z3_get_symbol_string_bytes(ctx, decl_name)
 
 
+def _z3_string_value(ctx, ast):
+    """
+    The characters of a Z3 string literal, read as code points (its printed form escapes NUL, non-ASCII, ...).
+    """
+    length = z3.Z3_get_string_length(ctx, ast)
+    contents = (ctypes.c_uint * length)()
+    z3.Z3_get_string_contents(ctx, ast, length, contents)
+    return "".join(map(chr, contents))
+
+
 def z3_solver_sat(solver, extra_constraints, occasion):
     log.debug("Doing a check! (%s)", occasion)
 
@@ -586,7 +596,7 @@ class BackendZ3(Backend):
         if op_name.startswith("RM_"):
             return RM(op_name)
         if op_name == "INTERNAL":
-            return claripy.StringV(z3.SeqRef(ast).as_string())
+            return claripy.StringV(_z3_string_value(ctx, ast))
         if op_name == "BitVecVal":
             bv_size = z3.Z3_get_bv_sort_size(ctx, z3_sort)
             if z3.Z3_get_numeral_uint64(ctx, ast, self._c_uint64_p):
@@ -741,9 +751,8 @@ class BackendZ3(Backend):
             arg_ast = z3.Z3_get_app_arg(ctx, ast, 0)
             return self._abstract_fp_encoded_val(ctx, arg_ast)
         if op_name == "INTERNAL":
-            seq = z3.SeqRef(ast)
-            if seq.is_string():
-                return seq.as_string()
+            if z3.Z3_is_string(ctx, ast):
+                return _z3_string_value(ctx, ast)
         raise BackendError("Unable to abstract Z3 object to primitive")
 
     def _abstract_bv_val(self, ctx, ast):
